@@ -95,7 +95,15 @@ def step (st : St) (n : Nat) (ln : Line) : St × List String :=
       | none => ["err", "-"]) ++ ivs.map (fmtIv st.k st.L st.S)
     let implOk := o.getD 0 "" == "ok"
     let j := readJudge st.k st.L st.S encStrict st.D off size implOk (tokBytes (o.getD 1 "-"))
-    (st, diff n ln model ++ judgeOut n j s!"L={st.L} S={st.S} n={st.D.length} off={off} size={size}" ++ ivCov ivs
+    -- T1: the Go→Lean TRANSLATIONS of locateOffset / ToShardIdAndOffset agree with the hand model
+    let mo := locateOffset st.k st.L st.S (st.k * shardSize) off
+    let g := SwV.Gen.C06.locateOffset st.L st.S (st.k * shardSize) off
+    let gd1 := if g == ((mo.1 : Int), mo.2.1, (mo.2.2 : Int)) then [] else [s!"DIFF {n} rd(gen locateOffset) gen differs from model off={off}"]
+    let gd2 := if ivs.all (fun iv =>
+        let so := toShardIdAndOffset st.k st.L st.S iv
+        SwV.Gen.C06.Interval_ToShardIdAndOffset iv.blockIndex iv.inner iv.size iv.isLarge iv.largeRows st.L st.S == ((so.1 : Int), (so.2 : Int)))
+      then [] else [s!"DIFF {n} rd(gen ToShardIdAndOffset) gen differs from model off={off} size={size}"]
+    (st, gd1 ++ gd2 ++ diff n ln model ++ judgeOut n j s!"L={st.L} S={st.S} n={st.D.length} off={off} size={size}" ++ ivCov ivs
       ++ [if r.isSome then "COV rd.ok" else "COV rd.err"])
   | "rebuild" =>
     let mask := tokNat (a.getD 0 "")
